@@ -63,6 +63,15 @@ CLAIMED = {
         '(row count = index, relators close, subgroup generators fix row 0): Todd-Coxeter correctness has no inductive invariant within reach; '
         'merge/compact are not under contract.',
    ref='5 C11', technique=TECH),
+ 'C05': dict(
+   text='Unbounded proof (Verus/Z3) over the real bodies of build_set, build_sym_using_ms, orbit_reps_2d, cover and oriented_cover: for every complete base '
+        'and every sheet map that is a consistent family of sheet permutations, the result is a well-formed complete symbol of nr_sheets*size chambers whose '
+        'projection d -> (d-1) % size + 1 commutes with every operation; fibres have exactly nr_sheets elements (lemma); oriented_cover discharges the '
+        'sheet-map conditions for its xor map whatever the orientation routine returns.',
+   note='Trusted: Verus+Z3, vstd; is_oriented, partial_orientation, as_partial_dsym (Traversal-based / build_sym_using_vs) assumed, the last one as a 1-sheeted cover. '
+        'Not decided: degree preservation, connectedness, orientedness of the oriented cover, covers()/cover_for_table()/finite_universal_cover (depend on C09/C11/C12), '
+        'the count of covers per subgroup class.',
+   ref='5 C05', technique=TECH),
 }
 
 NA = {
